@@ -53,13 +53,13 @@ structure Inv (s : St) : Prop where
   created : s.state = .created → s.child = .none
   res : s.result.isSome = true → s.state = .joined
   resOk : s.state = .joined → s.w.isMsa = true →
-    ∃ r, s.result = some r ∧ parseOutput (toolRows s.tool s.n) (s.tool = .garbageRagged) s.n = .ok r
+    ∃ r, s.result = some r ∧ parseOutput (toolRows s.tool s.n) (badLengths s.tool) s.n = .ok r
 
 theorem inv_init (w : Wrapper) (t : Tool) (n : Nat) (k : String) : Inv (init w t n k) := by
   constructor <;> simp [init, AppState.terminal]
 
 theorem evaluate_ok_msa (s : St) (r) (h : evaluate s = .ok r) (hm : s.w.isMsa = true) :
-    ∃ p, r = some p ∧ parseOutput (toolRows s.tool s.n) (s.tool = .garbageRagged) s.n = .ok p := by
+    ∃ p, r = some p ∧ parseOutput (toolRows s.tool s.n) (badLengths s.tool) s.n = .ok p := by
   unfold evaluate at h
   cases hw : s.w <;> simp [hw, Wrapper.isMsa] at h hm <;>
   · split at h
